@@ -102,6 +102,18 @@ public:
     using Output = RawSegs;
     RawContourer(libfive::PerThreadBRep<2>& m) : libfive::DCContourer(m) {}
 };
+static void dump_otree(const libfive::DCTree<3>* t, std::ostringstream& o) {
+    if (t->isBranch()) {
+        o << " B";
+        for (unsigned i = 0; i < 8; ++i) dump_otree(t->children[i].load(), o);
+    } else if (t->type == libfive::Interval::EMPTY) o << " E";
+    else if (t->type == libfive::Interval::FILLED) o << " F";
+    else if (t->type == libfive::Interval::AMBIGUOUS && t->leaf != nullptr) {
+        o << " A," << t->leaf->level << "," << (int)t->leaf->corner_mask << "," << (t->leaf->manifold ? 1 : 0)
+          << "," << t->leaf->vertex_count;
+        for (unsigned i = 0; i < 4; ++i) o << "," << t->leaf->index[i];
+    } else o << " U";
+}
 static void dump_qtree(const libfive::DCTree<2>* t, std::ostringstream& o) {
     if (t->isBranch()) {
         o << " B";
@@ -1625,6 +1637,37 @@ int main(int argc, char** argv) {
                         o << " segs=";
                         for (auto& sg : raw->segs) o << " " << sg.first << ">" << sg.second;
                     }
+                }
+                out(o.str());
+            }
+            else if (c == "octree") {
+                // octree h level lx ly lz ux uy uz max_err workers : the octree the dual-contouring mesher walks, before
+                // (max_err = -1) and after collapsing at max_err, with the triangles of the walk over the collapsed tree
+                // (vertex indices as pushed, so that leaf->index names them) -- for Render/OctTree.v
+                Tree tr = H(t[1]);
+                int level = std::stoi(t[2]);
+                Eigen::Vector3d lo(of_hex32(t[3]), of_hex32(t[4]), of_hex32(t[5])), hi(of_hex32(t[6]), of_hex32(t[7]), of_hex32(t[8]));
+                float max_err = of_hex32(t[9]);
+                unsigned workers = (unsigned)std::stoul(t[10]);
+                const Tree topt = tr.optimized();
+                std::ostringstream o;
+                o << "OT";
+                for (int pass = 0; pass < 2; ++pass) {
+                    BRepSettings st;
+                    st.alg = DUAL_CONTOURING;
+                    st.workers = 1; st.max_err = pass == 0 ? -1.0f : max_err;
+                    st.min_feature = (hi - lo).minCoeff() / (1 << level) * 1.0001;
+                    Region<3> rg(lo, hi);
+                    std::vector<Evaluator, Eigen::aligned_allocator<Evaluator>> es;
+                    es.reserve(1); es.emplace_back(Evaluator(topt));
+                    auto xtree = DCWorkerPool<3>::build(es.data(), rg, st);
+                    o << (pass == 0 ? " level=" + std::to_string(xtree.get()->region.level) + " pre=" : " post=");
+                    if (pass == 0) { dump_otree(xtree.get(), o); continue; }
+                    st.workers = workers;
+                    auto mesh = Dual<3>::walk<DCMesher>(xtree, st);
+                    dump_otree(xtree.get(), o);
+                    o << " tris=";
+                    for (auto& b : mesh->branes) o << " " << b(0) << ">" << b(1) << ">" << b(2);
                 }
                 out(o.str());
             }
